@@ -458,8 +458,9 @@ def _pop_line_before_zid(words: list[str]) -> str:
     spaces = " " * num_spaces
 
     symbol = words.pop(0)
-    _pop_empty_words(words)
 
+    # A priority is the word right after the symbol; after two blanks the
+    # grammar reads a Pn word as the first word of the body.
     priority = ""
     if (
         symbol != "-"
@@ -469,7 +470,7 @@ def _pop_line_before_zid(words: list[str]) -> str:
         and words[0][1].isdigit()
     ):
         priority = f"{words.pop(0)} "
-        _pop_empty_words(words)
+    _pop_empty_words(words)
     return f"{spaces}{symbol} {priority}"
 
 
